@@ -20,7 +20,9 @@ RULE = ("trees: (a) every forest shape with <=3 (quick) / <=4 (thorough) element
         "criteria of every kind (str, non-str object, True, False, None, compiled pattern, function, list incl. None / "
         "nested / empty items and every flavour of iterable of alternatives — tuple, set, frozenset, dict, dict views, generator, "
         "iterator, map —, numbers 0 / 0.0 / 1 / -1 next to True / False / None on attribute values \"0\", \"1\", \"False\", \"\", "
-        "class_ and deprecated text= spellings, non-dict attrs) — all combinations for the fixed "
+        "class_ and deprecated text= spellings, attrs as every flavour of mapping (dict, OrderedDict, defaultdict, another tag's "
+        ".attrs), non-dict attrs; criterion functions that raise StopIteration / ValueError / a user exception at their k-th call "
+        "(the search must raise or return the full documented result) — all combinations for the fixed "
         "core query list on small trees, sampled otherwise; tag(...) and tag.name shorthands; every public spelling of "
         "every family (the 14 documented names and the 15 camelCase / fetch* aliases) from every element, judged by the "
         "oracle on the documented axis; CSS selectors (type, .class, #id, [attr], [attr=v], compounds, descendant and child "
@@ -101,6 +103,31 @@ def lst(*atoms):
 
 def S(s):
     return ("s", s)
+
+
+# the attrs argument is "a mapping of attribute criteria": every flavour of dict is read the same way
+MAPPINGS = ["dict", "OrderedDict", "defaultdict", "tag_attrs"]
+
+
+def plain_values(items):
+    """Criteria another tag's own .attrs object could hold: strings and lists of strings."""
+    for _, c in items:
+        if not all(a[0] == "s" for a in atoms_of(c)) or len(c) > 2:
+            return False
+    return True
+
+
+def py_mapping(items, flavour, funs):
+    d = [(k, py_crit(c, funs, "attr")) for k, c in items]
+    if flavour == "OrderedDict":
+        from collections import OrderedDict
+        return OrderedDict(d)
+    if flavour == "defaultdict":
+        from collections import defaultdict
+        return defaultdict(list, d)
+    if flavour == "tag_attrs":
+        return Tag(name="q", attrs=dict(d)).attrs           # another tag's own attribute dictionary
+    return dict(d)
 
 
 FLAVOURS = ["tuple", "set", "frozenset", "dict", "dict_keys", "dict_values", "generator", "iterator", "map"]
@@ -511,8 +538,8 @@ def call_args(q, funs):
         kw["name"] = py_crit(q["name"], funs, "name")
     at = q["attrs"]
     if at[0] == "dict":
-        if at[1]:
-            kw["attrs"] = {k: py_crit(c, funs, "attr") for k, c in at[1]}
+        if at[1] or len(at) > 2:
+            kw["attrs"] = py_mapping(at[1], at[2] if len(at) > 2 else "dict", funs)
     else:
         kw["attrs"] = py_crit(at[1], funs, "attr")
     if q["string"] != NONE:
@@ -567,6 +594,15 @@ def kinds_queries():
             Q.append(mkq(name=c))
             Q.append(mkq(string=c))
             Q.append(mkq(name=one(S("a")), kwargs=[("id", c)]))
+    for fl in MAPPINGS:
+        for items in ([("id", one(S("0")))], [("id", one(S("1"))), ("class", one(S("1")))], [("data-k", lst(S("0"), S("-1")))],
+                      [("class", one(S("0")))], []):
+            Q.append(mkq(attrs=("dict", items, fl)))
+            Q.append(mkq(name=one(S("a")), attrs=("dict", items, fl)))
+            Q.append(mkq(name=one(S("b")), attrs=("dict", items, fl), limit=1))
+        if fl != "tag_attrs":
+            Q.append(mkq(attrs=("dict", [("id", one(("b", True))), ("data-k", one(("p", 4)))], fl)))
+            Q.append(mkq(attrs=("dict", [("id", one(("b", False)))], fl)))
     Q.append(mkq(kwargs=[("id", lst(("o", 0), ("b", False)))]))
     Q.append(mkq(kwargs=[("id", lst(("b", False), ("o", 1)))]))
     item_sets = {"name": [[S("a"), S("b")], [S("b")], [S("zz"), ("p", 0)], []],
@@ -620,6 +656,84 @@ def kinds_block(ctx):
                         searches.append((start, axis, False, dict(q, limit=1), False))
         for i in range(0, len(searches), 3000):
             check_case(ctx, case, searches[i:i + 3000])
+
+
+class Boom(Exception):
+    """A user exception raised by a criterion function."""
+
+
+RAISES = [StopIteration, ValueError, Boom]
+
+
+class RaisingFuns(Funs):
+    """Criterion functions that answer like the seeded predicates but raise [exc] at their k-th call."""
+
+    def __init__(self, forest, exc, k):
+        Funs.__init__(self, forest)
+        self.exc, self.k, self.calls, self.raised = exc, k, 0, False
+
+    def make(self, site, fid):
+        def f(arg):
+            self.calls += 1
+            if self.calls == self.k:
+                self.raised = True
+                raise self.exc("raised by the criterion function at call %d" % self.k)
+            return fun_value(fid, self.key(arg))
+        return f
+
+
+def raising_queries():
+    return [mkq(name=one(("f", 0))), mkq(name=one(("f", 2))), mkq(kwargs=[("id", one(("f", 0)))]),
+            mkq(name=one(S("a")), kwargs=[("class_", one(("f", 3)))]), mkq(string=one(("f", 0))),
+            mkq(name=one(("b", True)), string=one(("f", 5))), mkq(name=lst(S("zz"), ("f", 0)))]
+
+
+def raising_block(ctx, case):
+    """A criterion function is called once per candidate and whatever it raises is the caller's to see: the search
+    either raises (any exception) or returns exactly the documented result — never a silently shorter one."""
+    wf = case.names_wf()
+    if not wf:
+        return
+    for start, o in enumerate(case.forest.objs):
+        for axis in (0, 2, 6):
+            if axis < 2 and not isinstance(o, Tag):
+                continue
+            axl = o_axis(o, axis)
+            if not axl:
+                continue
+            for q in raising_queries():
+                qq = dict(q, string=NONE) if axis == 6 else q
+                exp = [case.forest.oid(x) for x in axl if o_matches(qq, x, case.forest)]
+                for exc in RAISES:
+                    for k in (1, 2, 3):
+                        for singular, limit in ((False, None), (False, 2), (True, None)):
+                            funs = RaisingFuns(case.forest, exc, k)
+                            kw = call_args(qq, funs)
+                            if limit is not None:
+                                kw["limit"] = limit
+                            ctx.case((case_key(case), start, axis, "raising", exc.__name__, k, singular, limit, repr(q)))
+                            ctx.count("raising_function_cases")
+                            try:
+                                with warnings.catch_warnings():
+                                    warnings.simplefilter("ignore")
+                                    m = getattr(o, (SINGULAR if singular else PLURAL)[axis])
+                                    r = m(**kw)
+                            except BaseException as e:
+                                if isinstance(e, (KeyboardInterrupt, SystemExit)):
+                                    raise
+                                ctx.count("raising_function_surfaced")
+                                continue
+                            if singular:
+                                got, want = (None if r is None else case.forest.oid(r)), (exp[0] if exp else None)
+                            else:
+                                got, want = [case.forest.oid(x) for x in r], (exp[:limit] if limit else exp)
+                            if got != want:
+                                ctx.fail({"tree": case.describe(), "start": start, "method": (SINGULAR if singular else PLURAL)[axis],
+                                          "query": dict(q, limit=limit), "function_raises": exc.__name__, "at_call": k,
+                                          "raised": funs.raised},
+                                         "a criterion function raised %s at its call number %d; the search neither raised nor returned "
+                                         "the documented result (exception swallowed, result silently truncated)" % (exc.__name__, k),
+                                         got, want, tag="raising-function")
 
 
 def core_queries():
@@ -713,6 +827,10 @@ def random_query(rng):
     elif r < 0.85:
         keys = rng.sample(["id", "class", "data-k", "rel", "href", "class_"], rng.choice([1, 1, 2]))
         attrs = ("dict", [(k, random_crit(rng, "attr", 0.1)) for k in keys])
+        if rng.random() < 0.4:
+            fl = rng.choice(MAPPINGS)
+            if fl != "tag_attrs" or plain_values(attrs[1]):
+                attrs = attrs + (fl,)
     else:
         c = random_crit(rng, "attr", 0.05)
         if len(c) > 2 and c[2] == "dict":
@@ -1459,6 +1577,8 @@ def run_all(ctx):
         for case, searches in corpus_cases():
             check_case(ctx, case, searches)
         kinds_block(ctx)
+        for case in kinds_trees():
+            raising_block(ctx, case)
         core = core_queries()
         edge = edge_queries()
         small = small_trees(4 if ctx.thorough else 3)
@@ -1493,6 +1613,8 @@ def run_all(ctx):
                 shorthand_block(ctx, case)
             if i % 6 == 0:
                 entry_point_block(ctx, case, rng.sample(entry_queries(), 4))
+            if i % 20 == 5:
+                raising_block(ctx, case)
             if i % 5 == 0:
                 core_block(ctx, [case], [None, 2], rng.sample(core, 12) + rng.sample(edge, 3))
             if i == 1:
@@ -1579,6 +1701,27 @@ def replay(ctx, data):
         return 1
     c = rebuild(case["tree"])
     o = c.forest.objs[case["start"]]
+    if "function_raises" in case:
+        q = norm_query(case["query"])
+        m = case["method"]
+        singular = m in SINGULAR and m not in PLURAL
+        axis = (SINGULAR if singular else PLURAL).index(m)
+        exc = {e.__name__: e for e in RAISES}[case["function_raises"]]
+        funs = RaisingFuns(c.forest, exc, case["at_call"])
+        qq = dict(q, string=NONE) if axis == 6 else q
+        kw = call_args(qq, funs)
+        if q["limit"] is not None and not singular:
+            kw["limit"] = q["limit"]
+        try:
+            with warnings.catch_warnings():
+                warnings.simplefilter("ignore")
+                r = getattr(o, m)(**kw)
+            got = (None if r is None else c.forest.oid(r)) if singular else [c.forest.oid(x) for x in r]
+        except Exception as e:
+            print("re-run: the search raised %s: as documented, the function's exception is not swallowed" % type(e).__name__)
+            return 0
+        print("re-run: function raised=%s at call %d; %s returned %r; documented result %r" % (funs.raised, case["at_call"], m, got, f.get("expected")))
+        return 0 if got == f.get("expected") else 1
     if "selector" in case:
         text, call = case["selector"], case.get("call", "tag.select(s)")
         k = int(call.split("limit=")[1].rstrip(")")) if "limit=" in call else 0
@@ -1648,6 +1791,9 @@ def norm_crit(c):
 def norm_query(q):
     """A query as read back from a JSON replay file."""
     at = q["attrs"]
-    attrs = ("dict", [(k, norm_crit(c)) for k, c in at[1]]) if at[0] == "dict" else ("other", norm_crit(at[1]))
+    if at[0] == "dict":
+        attrs = ("dict", [(k, norm_crit(c)) for k, c in at[1]]) + ((at[2],) if len(at) > 2 else ())
+    else:
+        attrs = ("other", norm_crit(at[1]))
     return {"name": norm_crit(q["name"]), "attrs": attrs, "string": norm_crit(q["string"]),
             "kwargs": [(k, norm_crit(c)) for k, c in q["kwargs"]], "limit": q["limit"]}
